@@ -1357,7 +1357,153 @@ def snip_control(rng, u):
     return {"family": "control", "defs": fn, "body": body}
 
 
-SNIPPETS = [snip_call, snip_call, snip_call, snip_closure, snip_class, snip_operators, snip_containers, snip_control]
+# ---- comprehensions -------------------------------------------------------------------------------
+
+COMP_CLAUSES = ["{x} % 2 == 0", "{x} % 3 == 0", "{x} % 2 == 1", "{x} > {a}", "{x} < {b}", "{x} != {a}", "{x} % 3 != 1",
+                "({x} & 1) == 0", "{x} >= 0", "{x} < 0", "not {x} % 4", "{a} < {x} <= {b}", "{x} * {x} > {b}", "True", "False",
+                "({x} % 2 == 0 or {x} > {b})", "isinstance({x}, int)"]
+
+
+def _comp_ifs(rng, x, n=None):
+    """0..3 `if` clauses over the variable x (random thresholds: early clauses often reject what a later one accepts)"""
+    n = rng.choice([0, 1, 1, 2, 2, 2, 3, 3]) if n is None else n
+    out = ""
+    for _ in range(n):
+        out += " if " + rng.choice(COMP_CLAUSES).format(x=x, a=rng.randint(0, 5), b=rng.randint(4, 11))
+    return out
+
+
+def _comp_source(rng, u):
+    """(iterable expression, target, scalar variable usable in conditions, element expressions)"""
+    k = rng.randrange(9)
+    a, b = rng.randint(0, 3), rng.randint(6, 14)
+    if k == 0:
+        return f"range({b})", "x", "x", ["x", "x * x", f"x + {a}", "(x, x % 3)"]
+    if k == 1:
+        return f"range({a}, {b + 6}, {rng.choice([1, 2, 3])})", "x", "x", ["x", f"x - {a}", "[x, -x]"]
+    if k == 2:
+        return f"cl{u}", "x", "x", ["x", "x * 2", "(x,)"]
+    if k == 3:
+        return f"ct{u}", "x", "x", ["x", f"x % {a + 2}", "x + 1"]
+    if k == 4:
+        return f"cd{u}.items()", "k, v", "v", ["k", "v", "(k, v)", "v * k"]
+    if k == 5:
+        return f"enumerate(cl{u})", "i, x", rng.choice(["i", "x"]), ["i", "x", "(i, x)", "i * x"]
+    if k == 6:
+        return f"zip(cl{u}, ct{u})", "p, q", rng.choice(["p", "q"]), ["p + q", "(p, q)", "p * q"]
+    if k == 7:
+        return f"enumerate(zip(ct{u}, cl{u}))", "i, (p, q)", rng.choice(["i", "p", "q"]), ["(i, p, q)", "i + p * q"]
+    return f"cd{u}", "k", "k", ["k", f"cd{u}[k]", f"(k, cd{u}[k])"]
+
+
+def snip_comprehension(rng, u):
+    """single-`for` list / dict comprehensions (the forms the tracer supports) with 0..3 filters over every kind of
+    iterable, nested comprehensions whose inner iterable depends on the outer variable, results used in len / indexing /
+    unpacking / folds, comprehensions inside module-level helpers, local functions and lambdas"""
+    n = rng.randint(5, 9)
+    vals = rng.sample(range(0, 20), n)
+    tvals = tuple(rng.sample(range(0, 15), rng.randint(3, 6)))
+    keys = rng.sample(range(1, 16), rng.randint(3, 6))
+    defs = (f"def fold{u}(l):\n    return 0 if len(l) == 0 else l[0] + fold{u}(l[1:])\n\n\n"
+            f"def pick{u}(n, m, lo=0):\n    return [x for x in range(n) if x % m == 0 if x >= lo]\n\n\n"
+            f"def table{u}(n):\n    return {{x: [y for y in range(x){_comp_ifs(rng, 'y', 2)}] for x in range(n){_comp_ifs(rng, 'x', 1)}}}\n\n\n"
+            f"def both{u}(seq, a, b):\n    return [e for e in seq if e % a == 0 if e % b == 0]\n")
+    body = [f"cl{u} = {vals}", f"ct{u} = {tvals}", f"cd{u} = {{{', '.join(f'{k}: {(k * 7) % 11}' for k in keys)}}}"]
+    st = []
+    for _ in range(rng.randint(4, 7)):
+        it, tg, var, elts = _comp_source(rng, u)
+        elt = rng.choice(elts)
+        comp = f"[{elt} for {tg} in {it}{_comp_ifs(rng, var)}]"
+        use = rng.randrange(8)
+        if use <= 2:
+            st.append(f"record({comp})")
+        elif use == 3:
+            st.append(f"record(len({comp}))")
+        elif use == 4:
+            st.append(f"record(({comp} + [99])[0])\nrecord(({comp} + [98])[-1])")
+        elif use == 5:
+            j = len(st)
+            st.append(f"ua{u}_{j}, *ub{u}_{j} = {comp} + [77]\nrecord((ua{u}_{j}, ub{u}_{j}))")
+        elif not any(c in elt for c in "(["):      # scalar elements: folds
+            st.append(f"record(fold{u}({comp}))" if use == 6 else f"record((max({comp} + [-1]), len({comp}[1:])))")
+        else:
+            st.append(f"record(({comp}, len({comp}[1:])))")
+    # dict comprehensions (unique keys)
+    for _ in range(rng.randint(1, 3)):
+        it = rng.choice([f"range({rng.randint(5, 13)})", f"cl{u}", f"ct{u}"]) if len(set(tvals)) == len(tvals) else f"range({rng.randint(5, 13)})"
+        st.append(f"record({{x: x * {rng.randint(1, 4)} for x in {it}{_comp_ifs(rng, 'x')}}})")
+    st.append(f"record({{k: v for k, v in cd{u}.items(){_comp_ifs(rng, rng.choice(['k', 'v']))}}})")
+    st.append(f"record({{v: k for k, v in enumerate(ct{u}){_comp_ifs(rng, 'k')}}})" if len(set(tvals)) == len(tvals) else f"record({{i: i for i in range(4)}})")
+    # nested comprehensions: the inner iterable depends on the outer variable
+    st.append(f"record([[x * y for y in range(x){_comp_ifs(rng, 'y')}] for x in range({rng.randint(3, 6)}){_comp_ifs(rng, 'x')}])")
+    st.append(f"record([len([y for y in cl{u} if y > x{_comp_ifs(rng, 'y', 1)}]) for x in ct{u}{_comp_ifs(rng, 'x', 1)}])")
+    st.append(f"record([z for z in [x + 1 for x in range(10){_comp_ifs(rng, 'x')}]{_comp_ifs(rng, 'z')}])")
+    # helpers, local functions, lambdas
+    a, b = rng.choice([2, 3]), rng.choice([2, 3, 4, 5])
+    st.append(f"record((pick{u}({rng.randint(8, 16)}, {a}), pick{u}(12, {b}, lo={rng.randint(1, 6)}), both{u}(range(25), {a}, {b}), both{u}(cl{u}, 2, 3)))")
+    st.append(f"record(table{u}({rng.randint(3, 6)}))")
+    st.append(f"lf{u} = lambda n, m: [x for x in range(n) if x % m != 0{_comp_ifs(rng, 'x', 1)}]\nrecord((lf{u}(10, 2), lf{u}(9, 3)))")
+    st.append(f"def loc{u}(seq, lim):\n    return {{e: [d for d in range(1, e + 1) if e % d == 0 if d != 1 if d != e] for e in seq if e > lim if e % 2 == 0}}\nrecord(loc{u}(range(13), {rng.randint(0, 5)}))")
+    rng.shuffle(st)
+    body += st[: rng.randint(8, 14)]
+    return {"family": "comprehension", "defs": defs, "body": body}
+
+
+def snip_comprehension_multi(rng, u):
+    """forms the tracer is expected to reject (several `for` clauses in one comprehension, set comprehensions, generator
+    expressions): ONE such statement per program so that a rejection hides nothing; if a future tracer accepts them the
+    values must be CPython's"""
+    n, m = rng.randint(3, 6), rng.randint(2, 5)
+    k = rng.randrange(6)
+    if k == 0:
+        st = f"record([(x, y) for x in range({n}){_comp_ifs(rng, 'x', rng.randint(0, 2))} for y in range(x){_comp_ifs(rng, 'y', rng.randint(0, 2))}])"
+    elif k == 1:
+        st = f"record([x * y for x in range({n}) for y in ({m}, {n}, 1) if x != y if (x + y) % 2 == 0])"
+    elif k == 2:
+        st = f"record({{(x, y): x + y for x in range({n}) if x % 2 == 0 for y in range({m}) if y > x}})"
+    elif k == 3:
+        st = f"record(sorted({{x % {m} for x in range({n + 6}){_comp_ifs(rng, 'x')}}}))"
+    elif k == 4:
+        st = f"record(list(x * 2 for x in range({n + 4}){_comp_ifs(rng, 'x')}))"
+    else:
+        st = f"record([c for row in [[r * {m} + c for c in range({m})] for r in range({n})] for c in row{_comp_ifs(rng, 'c')}])"
+    return {"family": "comprehension-multi", "defs": "", "body": [st]}
+
+
+def check_comprehensions(ctx: Ctx):
+    """systematic part: every ordered pair / many triples of filter clauses over a fixed range, for list and dict
+    comprehensions - packed into few traced programs (all accepted), compared with CPython value by value"""
+    pool = ["x % 2 == 0", "x % 3 == 0", "x > 4", "x < 9", "x != 6", "x % 2 == 1", "True", "False"]
+    combos = [()] + [(a,) for a in pool] + [(a, b) for a in pool for b in pool]
+    rng = ctx.rng
+    combos += [tuple(rng.choice(pool) for _ in range(3)) for _ in range(ctx.scale(25, 200))]
+    cases, meta = [], []
+    for cl in combos:
+        ifs = "".join(f" if {c}" for c in cl)
+        for kind, src in (("list", f"record([x for x in range(15){ifs}])"), ("dict", f"record({{x: x + 1 for x in range(15){ifs}}})"),
+                          ("nested", f"record([[y for y in range(x){ifs.replace('x', 'y')}] for x in (3, 7, 12){ifs}])")):
+            if kind == "nested" and len(cl) != 2:
+                continue
+            cases.append({"defs": "", "body": [src]})
+            meta.append((kind, cl, src))
+    res = run_cases(cases, chunk=35)
+    bad = 0
+    for (kind, cl, src), case, r in zip(meta, cases, res):
+        v = verdict(r)
+        ctx.case(key=("comp", kind, cl), nontrivial=len(cl) >= 2, kind=f"comprehension:{kind}:{len(cl)}-ifs",
+                 sample={"stmt": src, "verdict": v} if len(cl) == 3 else None)
+        if v == "diff":
+            if report_diff(ctx, f"comprehension:{kind}:" + " if ".join(cl),
+                           f"`{src}`: CPython {val_of(r, 'py')}, tracer {val_of(r, 'co')}", case, r):
+                bad += 1
+        elif v != "same":
+            ctx.dist[f"comprehension:{kind}:{v}"] += 1
+    ctx.obligation("differential correspondence: list / dict / nested comprehensions with every ordered pair (and random triples) of filter clauses over range(15) evaluate to CPython's value",
+                   bad == 0, detail=f"{len(cases)} comprehensions, {bad} differing")
+
+
+SNIPPETS = [snip_call, snip_call, snip_call, snip_closure, snip_class, snip_operators, snip_containers, snip_control,
+            snip_comprehension, snip_comprehension, snip_comprehension_multi]
 
 
 def first_diff_stmt(snip, r):
@@ -1407,7 +1553,7 @@ def classify(snip, r):
 
 def check_programs(ctx: Ctx):
     rng = ctx.rng
-    n_snip = ctx.scale(160, 1500)
+    n_snip = ctx.scale(220, 2000)
     snips = []
     for u in range(n_snip):
         g = SNIPPETS[u % len(SNIPPETS)] if u < 2 * len(SNIPPETS) else rng.choice(SNIPPETS)
@@ -1523,7 +1669,7 @@ def run(ctx: Ctx):
     import time
     timing = {}
     for name, fn in (("binding", check_binding), ("split", check_split), ("boolop", check_boolop), ("chain", check_chain),
-                     ("binop", check_binop), ("cmp", check_cmp), ("directed", check_directed), ("programs", check_programs)):
+                     ("binop", check_binop), ("cmp", check_cmp), ("directed", check_directed), ("comprehensions", check_comprehensions), ("programs", check_programs)):
         t0 = time.time()
         fn(ctx)
         timing[name] = round(time.time() - t0, 1)
